@@ -884,10 +884,6 @@ class Consumer(object):
         defer this processing until it's done.  Otherwise, we start another
         fetch request and submit the messages to the processor
         """
-        # Successful fetch, reset our retry delay
-        self.retry_delay = self.retry_init_delay
-        self._fetch_attempt_count = 1
-
         # Check to see if we are still processing the last block we fetched...
         if self._msg_block_d:
             # We are still working through the last block of messages...
@@ -967,6 +963,12 @@ class Consumer(object):
             if messages:
                 self._msg_block_d = Deferred()
                 self._process_messages(messages)
+
+        # Successful fetch: the reply has been decoded (the messages are read
+        # lazily, an undecodable reply raised out of the loop above and is a
+        # failed attempt like any other). Reset our retry delay and count.
+        self.retry_delay = self.retry_init_delay
+        self._fetch_attempt_count = 1
 
         # start another fetch, if needed, but use callLater to avoid recursion
         self._retry_fetch(0)
